@@ -170,6 +170,39 @@ fn rendering_discipline(out: &mut Out) {
     }
 }
 
+/// zero-sized elements with a one-character rendering
+#[derive(Clone, Copy, Debug)]
+struct Zs;
+impl std::fmt::Display for Zs {
+    fn fmt(&self, f: &mut std::fmt::Formatter<'_>) -> std::fmt::Result { f.write_str("z") }
+}
+
+/// `format!` of a 1 x n / n x 1 matrix of a zero-sized type, n from 2^58 (the first count whose 32-byte line queues exceed
+/// isize::MAX bytes) upwards; counts just below are not run: the request would be granted or kill the process
+fn huge_zst(out: &mut Out) {
+    let es = std::mem::size_of::<std::collections::VecDeque<String>>();
+    for n in [1usize << 58, (1usize << 58) + 1, 1usize << 63, usize::MAX] {
+        for which in ["debug", "display"] {
+            for col in [false, true] {
+                out.case(&format!("fmt huge-zst {which} n={n} col={col}"));
+                let op = format!("zfmt {which} {n} {es}");
+                out.announce(&op);
+                let mut v: Vec<Zs> = Vec::new();
+                unsafe { v.set_len(n) };
+                let m = if col { Matrix::from_col(v) } else { Matrix::from_row(v) };
+                let res = catch(|| if which == "debug" { format!("{:?}", m).len() } else { format!("{}", m).len() });
+                match res {
+                    None => {
+                        out.oracle_fail(&format!("{op}: formatting a matrix of {n} zero-sized elements panicked (the line cache is requested with Vec::with_capacity(size))"));
+                        out.observe("panic");
+                    }
+                    Some(_) => out.observe("ok"),
+                }
+            }
+        }
+    }
+}
+
 pub fn run_c20(out: &mut Out, rng: &mut Rng, tier: Tier) -> String {
     rendering_discipline(out);
     let bound = 4;
@@ -200,6 +233,8 @@ pub fn run_c20(out: &mut Out, rng: &mut Rng, tier: Tier) -> String {
         one(out, nr, nc, &logical);
         out.nontrivial();
     }
+    // zero-sized matrices whose cache of line queues (`Vec::with_capacity(size)` of `VecDeque<String>`) cannot be requested
+    huge_zst(out);
     // larger index widths in Debug (size with 2 and 3 digits)
     for (nr, nc) in [(3usize, 4usize), (10, 11), (1, 101)] {
         out.case(&format!("fmt wide-index shape={nr}x{nc}"));
@@ -209,7 +244,7 @@ pub fn run_c20(out: &mut Out, rng: &mut Rng, tier: Tier) -> String {
     }
     format!(
         "every shape 0..={bound} x 0..={bound} x {per_shape} assignments of element renderings from a 24-entry palette (empty string, ASCII, multi-byte, blank, tab, bare CR, renderings with LF / CRLF (also between multi-byte characters) / trailing and doubled line breaks): all-empty, all-equal, single-line mixes, arbitrary mixes; \
-         each logical matrix is built in both storage orders and formatted with Display and Debug (crate features full = parallel + pretty-debug, NO_COLOR set); plus 3x4, 10x11 and 1x101 for 2- and 3-digit index labels. \
+         each logical matrix is built in both storage orders and formatted with Display and Debug (crate features full = parallel + pretty-debug, NO_COLOR set); plus 3x4, 10x11 and 1x101 for 2- and 3-digit index labels; plus Display / Debug of 1 x n and n x 1 matrices of a zero-sized type for n = 2^58, 2^58 + 1, 2^63, usize::MAX (known finding F-C20-huge-zst-capacity). \
          Oracle: never a panic; element-less => `[]` (both impls); Debug for single-line renderings: header line, one bracketed line per logical row with its number and every element labelled with its memory-order position, all row lines equally wide; for single-line renderings exactly one bracketed line per logical row with the row's elements in column order, padded to the common width, all lines equally wide in characters; Display text identical for both orders. A case = one logical matrix"
     )
 }
